@@ -41,6 +41,14 @@ type params struct {
 	// GateFirst: on both stations the first periodic report stays inside UpdateStatus until both Exchange
 	// calls have returned; the reports still owed (in particular that transfer's Done) arrive afterwards.
 	GateFirst bool `json:"gate_first,omitempty"`
+	// TxWindowMS > 0: the sending connections report a transmit buffer (no Flush) holding what was written within
+	// the last TxWindowMS; the pacing of the link starts only after SlowAfter bytes (a fast first message, a
+	// slow second one: the reported buffer is high when the second transfer starts and falls during it).
+	TxWindowMS int   `json:"tx_window_ms,omitempty"`
+	SlowAfter  int64 `json:"slow_after,omitempty"`
+	// BigFirst: the first (large) message carries a precedence marker, so that it is transferred BEFORE the
+	// smaller ones (proposals go out by precedence, then size).
+	BigFirst bool `json:"big_first,omitempty"`
 }
 
 var Check = &vrt.Check{
@@ -107,6 +115,11 @@ func plan(seed int64, tier string) []vrt.Case {
 		for rep := 0; rep < reps; rep++ {
 			cs = append(cs, vrt.Case{ID: fmt.Sprintf("s%d-r%d", i, rep), Params: vrt.MustParams(params{Seed: seed, Index: i, DelayMS: s.delay, Size: s.size, NMsgs: s.n, Modem: s.modem, Rep: rep, TxDelayMS: s.tx, UpdDelayMS: s.upd, TxHoldMS: s.hold}), TimeoutS: 600})
 		}
+	}
+	// a TxBuffer-only modem whose reported buffer follows the write rate; a large message received before smaller ones
+	for rep := 0; rep < reps; rep++ {
+		cs = append(cs, vrt.Case{ID: fmt.Sprintf("txwindow-r%d", rep), Params: vrt.MustParams(params{Seed: seed, Index: 3000, DelayMS: 50, Size: 2600, NMsgs: 2, Modem: true, Rep: rep, TxWindowMS: 700, SlowAfter: 3000}), TimeoutS: 600})
+		cs = append(cs, vrt.Case{ID: fmt.Sprintf("bigfirst-r%d", rep), Params: vrt.MustParams(params{Seed: seed, Index: 3001, DelayMS: 50, Size: 3200, NMsgs: 3, Rep: rep, BigFirst: true}), TimeoutS: 600})
 	}
 	// a display that is still busy with a periodic report when the exchange ends (paced, so that periodic reports happen)
 	for i, sz := range []int{2600, 5200} {
@@ -311,6 +324,9 @@ func attemptPair(c vrt.Case) (vrt.Obs, map[string]bool) {
 	sc := &b2fx.Scenario{Policy: map[string]fbb.ProposalAnswer{}, Truth: map[string][]byte{}, MasterIsA: p.Rep%2 == 0}
 	mk := func(mid, from, to string, size int) (b2fx.MsgSpec, error) {
 		m := b2fx.MsgSpec{MID: mid, From: from, To: []string{to}, Subject: "progress " + mid, Body: vrt.Bytes(rng, size), Shape: fmt.Sprintf("body[%d]", size)}
+		if p.BigFirst && mid == "A0" {
+			m.Subject = "//WL2K P/ progress " + mid
+		}
 		cb, err := m.Canonical()
 		if err == nil {
 			sc.Truth[mid], sc.Policy[mid] = cb, fbb.Accept
@@ -321,6 +337,9 @@ func attemptPair(c vrt.Case) (vrt.Obs, map[string]bool) {
 		size := p.Size + rng.Intn(1+p.Size/8) // jitter: the end of the transfer falls at varying phases of the 250 ms tick
 		if i > 0 && p.TxDelayMS+p.UpdDelayMS == 0 {
 			size = 50 + p.Size/4
+		}
+		if p.TxWindowMS > 0 {
+			size = p.Size + 40*i // two messages of about the same size
 		}
 		m, err := mk(fmt.Sprintf("A%d", i), b2fx.CallA, b2fx.CallB, size)
 		if err != nil {
@@ -348,9 +367,14 @@ func attemptPair(c vrt.Case) (vrt.Obs, map[string]bool) {
 	}
 	sa.Status, sb.Status = ra, rb
 	sa.Modem, sb.Modem = p.Modem, p.Modem
+	if p.TxWindowMS > 0 {
+		sa.ModemTxWindow, sb.ModemTxWindow = time.Duration(p.TxWindowMS)*time.Millisecond, time.Duration(p.TxWindowMS)*time.Millisecond
+		sa.ModemNoFlush, sb.ModemNoFlush = true, true
+	}
 	var pl vpipe.Plan
 	pl.CutDir = vpipe.NoCut
 	pl.WriteDelay = [2]time.Duration{time.Duration(p.DelayMS) * time.Millisecond, time.Duration(p.DelayMS) * time.Millisecond}
+	pl.WriteDelayAfter = [2]int64{p.SlowAfter, p.SlowAfter}
 	res, _ := b2fx.RunPair(sa, sb, pl, false)
 	if p.GateFirst {
 		close(ra.gate)
